@@ -1,7 +1,7 @@
 #!/bin/sh
 # Runs every registered check (quick tier by default) and prints one summary line each.
 # usage: tools/runall.sh [seed] [tier]
-cd /verif
+cd "$(dirname "$0")/.."
 SEED=${1:-1}
 TIER=${2:-quick}
 rc=0
